@@ -193,3 +193,8 @@ CASES += [
     dict(id='c08-crosscheck-stops-at-self', prop='C08', file=G, expect='R3',
          old="      if (stored_group.mpArgHandler.get() == mod_handler)\n         continue; // for", new="      if (stored_group.mpArgHandler.get() == mod_handler)\n         break;   // for"),
 ]
+
+CASES += [
+    dict(id='c05-subgroup-container-args-swapped', prop='C05', file=H, expect='R2',
+         old="   mSubGroupArgs( (flag_set & hfNoAbbr) == 0, true),", new="   mSubGroupArgs( true, (flag_set & hfNoAbbr) == 0),"),
+]
